@@ -51,8 +51,14 @@ def run(pid, tier, seed):
     trace_violations = []
     for events, vs, _ in c.validate_traces("Trace_Lex", cmds, wd, "trace_lex"):
         validated += len(events)
+        for ev in events:
+            if ev.get("err") == "PANIC":
+                trace_violations.append({"property": pid, "class": "tokenizer_panicked", "features": {},
+                                         "replay": {"line": ev["line"], "text": bytes(ev["line"]).decode("utf-8", "replace")}})
         for v in vs:
             ev = events[v["i"] - 1]
+            if ev.get("err") == "PANIC":
+                continue
             for why in v["why"]:
                 if why.startswith("MODEL:"):
                     raise c.ToolError(f"the MODEL violates {why} on line {bytes(ev['line'])!r}")
@@ -69,7 +75,7 @@ def run(pid, tier, seed):
         "states": stats["distinct"], "transitions": stats["generated"],
         "traces_validated_against_impl": cnt.get("rows", 0) + validated,
         "exhaustive": True,
-        "rule": f"every line of <= {cfg['maxlex']} lexemes over the 34-lexeme alphabet of MC_Lex.tla (distinct byte strings) plus 2904 DATA statements by grammar (two items of 11 kinds x 3 separators x 4 tails); "
+        "rule": f"every line of <= {cfg['maxlex']} lexemes over the 36-lexeme alphabet of MC_Lex.tla (distinct byte strings) plus 2904 DATA statements by grammar (two items of 11 kinds x 3 separators x 4 tails); "
                 "non-trivial = the line yields at least one token",
         "evaluations": cnt.get("rows", 0) + cnt.get("perturbations", 0) + cnt.get("list_roundtrips", 0) + validated,
         "distinct_nontrivial": cnt.get("rows_nontrivial", 0),
